@@ -10,4 +10,5 @@ var All = map[string]func() *corr.Engine{
 	"C02": C02,
 	"C17": C17,
 	"C08": C08,
+	"C01": C01,
 }
